@@ -73,12 +73,74 @@ fn json_probe(h: &mut H, ty: &str, text: &str) {
     h.expect(r.is_ok(), "C08.json_panic", &format!("serde_json decoding of {} panicked on {:?}", ty, &text[..text.len().min(60)]), &[]);
 }
 
+/// JSON decoding of the GENERIC scheme enums (`Signature<S>`, `PoKSignature<S>`, `Commitment<S>`,
+/// `BlindSignature<S>`), which is what an application receives, followed by every operation that takes the
+/// decoded object: whatever the JSON says (another variant tag, the type-system-only variant, a shape of the
+/// wrong scheme), decoding returns Ok/Err and the operations on a decoded object return Ok/Err -- no panic.
+fn generic_enum_json<CS: BbsCiphersuite>(h: &mut H, hon: &Honest)
+where
+    CS::Expander: for<'a> ExpandMsg<'a>,
+{
+    use std::panic::{catch_unwind, AssertUnwindSafe};
+    let pk = BBSplusPublicKey::from_bytes(&hon.pk).unwrap();
+    let inner_sig = serde_json::to_string(&BBSplusSignature::from_bytes(&hon.sig.clone().try_into().unwrap()).unwrap()).unwrap();
+    let inner_proof = serde_json::to_string(&BBSplusPoKSignature::from_bytes(&hon.proof).unwrap()).unwrap();
+    let inner_commit = serde_json::to_string(&BBSplusCommitment::from_bytes(&hon.commit).unwrap()).unwrap();
+    let texts = |inner: &str| -> Vec<String> {
+        vec![
+            format!("{{\"BBSplus\":{}}}", inner),
+            "{\"_Unreachable\":null}".to_string(),
+            "{\"_Unreachable\":[]}".to_string(),
+            "\"_Unreachable\"".to_string(),
+            format!("{{\"CL03\":{}}}", inner),
+            "{\"CL03\":null}".to_string(),
+            format!("{{\"_Unreachable\":{}}}", inner),
+            format!("{{\"BBSplus\":{},\"_Unreachable\":null}}", inner),
+            "{}".to_string(),
+            "null".to_string(),
+        ]
+    };
+    let mut probe = |h: &mut H, what: &str, f: &mut dyn FnMut() -> bool| {
+        h.stat(&format!("C08.generic_json.{}", what));
+        let r = catch_unwind(AssertUnwindSafe(|| f()));
+        h.expect(r.is_ok(), "C08.generic_json_panic", &format!("an operation on a {} object decoded from JSON panicked", what), &[]);
+    };
+    for t in texts(&inner_sig) {
+        probe(h, "Signature", &mut || match serde_json::from_str::<Sig<CS>>(&t) {
+            Ok(s) => { let _ = s.verify(&pk, None, None); let _ = catch_unwind(AssertUnwindSafe(|| s.to_bytes())).map_err(|e| std::panic::resume_unwind(e)); true }
+            Err(_) => false,
+        });
+        probe(h, "BlindSignature", &mut || match serde_json::from_str::<Bsig<CS>>(&t) {
+            Ok(s) => { let _ = s.verify_blind_sign(&pk, None, None, None, None); let _ = s.to_bytes(); true }
+            Err(_) => false,
+        });
+    }
+    for t in texts(&inner_proof) {
+        probe(h, "PoKSignature", &mut || match serde_json::from_str::<Pok<CS>>(&t) {
+            Ok(p) => {
+                let _ = p.proof_verify(&pk, None, None, None, None);
+                let _ = p.blind_proof_verify(&pk, None, None, Some(0), None, None, None, None);
+                let _ = p.to_bytes();
+                true
+            }
+            Err(_) => false,
+        });
+    }
+    for t in texts(&inner_commit) {
+        probe(h, "Commitment", &mut || match serde_json::from_str::<Com<CS>>(&t) {
+            Ok(c) => { let _ = c.to_bytes(); true }
+            Err(_) => false,
+        });
+    }
+}
+
 pub fn c08<CS: BbsCiphersuite>(h: &mut H)
 where
     CS::Expander: for<'a> ExpandMsg<'a>,
 {
     let thorough = h.tier_thorough;
     let hon = honest_artefacts::<CS>(h, 3, 2);
+    generic_enum_json::<CS>(h, &hon);
     // a long honest proof / commitment so that "honest prefix" classes exist up to 1024 bytes
     let hon_long = honest_artefacts::<CS>(h, 26, 27);
     // --- decoders: every length 0..=1024, several content classes
@@ -260,6 +322,21 @@ where
             no_panic(h, "update_signature", o.class(), id);
         }
     }
+    // a well-formed signature whose exponent is tied to the signer's key: e = -SK (SK + e = 0 has no inverse)
+    {
+        let skv = Scalar::from_be_bytes(&sk.to_bytes()).unwrap();
+        let mut sb = sig.to_bytes();
+        sb[48..80].copy_from_slice(&(-skv).to_be_bytes());
+        if let Ok(s2) = BBSplusSignature::from_bytes(&sb) {
+            let o = update::<CS>(h, &s2, &sk, &msgs[0], b"new", 0, msgs.len());
+            let id = h.last();
+            h.stat("C08.update_e_minus_sk");
+            no_panic(h, "update_signature (e = -SK)", o.class(), id);
+            h.expect(!o.is_ok(), "C08.update_e_minus_sk", "update_signature returned a signature although SK + e = 0", &[id]);
+            let v = verify::<CS>(h, &pk, &s2, None, Some(&msgs));
+            no_panic(h, "verify (e = -SK)", v.class(), h.last());
+        }
+    }
     // blind_sign / deserialize_and_validate_commit with arbitrary commitment bytes
     let cm2 = rand_msgs(h, 2);
     let run = honest_issue::<CS>(h, &sk, &pk, None, &msgs, &cm2, true).expect("issue");
@@ -335,6 +412,33 @@ where
     CS::Expander: for<'a> ExpandMsg<'a>,
 {
     let thorough = h.tier_thorough;
+    // more than 255 response scalars in a proof and in a commitment: counts that no longer fit a byte
+    {
+        let (sk, pk) = rand_keypair::<CS>(h);
+        let msgs = rand_msgs(h, 300);
+        if let Some(s) = sign::<CS>(h, &sk, &pk, None, Some(&msgs)).ok() {
+            if let Some(p) = honest_proof::<CS>(h, &pk, &s.to_bytes(), None, None, &msgs, &[0], true) {
+                let pb = p.to_bytes();
+                h.stat("C09.large_proof");
+                let ok = strict(h, "proof", &pb, "honest_299_hidden");
+                h.expect(ok, "C09.roundtrip_large", "a proof with 299 undisclosed messages does not survive decode/encode", &[h.last()]);
+                // a non-canonical scalar deep inside must still be refused
+                h.expect(pb.len() == 272 + 32 * 299, "C09.large_proof_len", "a proof with 299 undisclosed messages does not encode to 272 + 32*299 octets", &[h.last()]);
+                let off = 144 + 32 * 200;
+                if pb.len() >= off + 32 {
+                    let mut t = pb.clone();
+                    for b in &mut t[off..off + 32] { *b = 0xff; }
+                    must_reject(h, "proof", &t, "scalar_max_deep");
+                }
+            }
+        }
+        let cm = rand_msgs(h, 258);
+        let (c, _) = commit::<CS>(h, Some(&cm), vec![]);
+        if let Some((c, _)) = c.ok() {
+            let ok = strict(h, "commit", &c.to_bytes(), "honest_258_messages");
+            h.expect(ok, "C09.roundtrip_large", "a commitment to 258 messages does not survive decode/encode", &[h.last()]);
+        }
+    }
     let nobj = if thorough { 6 } else { 2 };
     for k in 0..nobj {
         let hon = honest_artefacts::<CS>(h, 1 + k % 4, k % 3);
